@@ -10,7 +10,8 @@
 //! F(key, log) = a fresh object of the same type and key fed `log` in one call; for the legacy
 //! digest objects additionally the one-call hashing::* function.
 //! Faults: reset at an arbitrary instant ("crash/restart": only the key may survive), repeated
-//! result (duplication), input after result (misuse), result into a buffer of the wrong size (misuse), fork.
+//! result (duplication), input after result (misuse), result into a buffer of the wrong size (misuse), re-key with
+//! a key longer than the algorithm allows (misuse, legacy BLAKE2), fork.
 //!
 //! After a call that was REFUSED loudly (a caught panic) the history goes on with the same object. The model is
 //! unchanged by a refused call. From then on a call may fail loudly (the object may consider itself poisoned - the
@@ -31,7 +32,8 @@ pub const K_RESET_KEY: u8 = 3; // arg = key len, seed = key seed (legacy BLAKE2 
 pub const K_FORK: u8 = 4;
 pub const K_RESET_PLAIN: u8 = 5; // Digest::reset / inherent reset of a legacy BLAKE2 MAC: documented as "state after new" (unkeyed)
 pub const K_RESULT_WRONG: u8 = 6; // raw_result / Digest::result into a buffer of the wrong size (arg selects the size): must be refused
-const KINDS: &[&str] = &["input", "result", "reset", "reset_with_key", "fork", "reset_to_unkeyed", "result_into_wrong_size_buffer"];
+pub const K_RESET_KEY_LONG: u8 = 7; // reset_with_key with a key longer than the algorithm allows (legacy BLAKE2 only): refused, nothing may change
+const KINDS: &[&str] = &["input", "result", "reset", "reset_with_key", "fork", "reset_to_unkeyed", "result_into_wrong_size_buffer", "reset_with_overlong_key"];
 
 pub struct Lifecycle;
 
@@ -145,9 +147,12 @@ impl Scenario for Lifecycle {
         let misuse = rng.chance(1, 2); // fault-free and fault-injecting configurations are separate
         let max_handles = rng.range(1, 3) as usize;
         let nops = rng.range(2, if tier == Tier::Thorough { 40 } else { 20 });
-        let mut w = [12u32, 4, 0, 0, 0, 0, 0];
+        let mut w = [12u32, 4, 0, 0, 0, 0, 0, 0];
         if misuse && rng.chance(1, 2) {
             w[K_RESULT_WRONG as usize] = 1;
+        }
+        if misuse && matches!(v.class, Class::BlakeMac(_)) && rng.chance(1, 2) {
+            w[K_RESET_KEY_LONG as usize] = 2;
         }
         if rng.chance(3, 4) {
             w[K_RESET as usize] = 3;
@@ -204,6 +209,21 @@ impl Scenario for Lifecycle {
                     if rng.chance(2, 3) {
                         t.ops.push(Op::new(h as u8, K_RESULT).off(rng.below(2) as u8));
                         sh[h].1 = true;
+                    }
+                }
+                K_RESET_KEY_LONG => {
+                    t.ops.push(Op::new(h as u8, K_RESET_KEY_LONG).arg(rng.below(8)).seed(rng.data_seed()));
+                    // what follows a refused re-key is what matters: the trait-level reset (re-keys from the stored
+                    // key), more input, or the result
+                    match rng.below(4) {
+                        0 => {
+                            t.ops.push(Op::new(h as u8, K_RESET));
+                            sh[h] = (0, false);
+                        }
+                        1 => {
+                            t.ops.push(Op::new(h as u8, K_INPUT).len(rng.range(0, 2 * b as u64) as usize).seed(rng.data_seed()));
+                        }
+                        _ => {}
                     }
                 }
                 K_RESET_KEY => {
@@ -388,11 +408,41 @@ impl Scenario for Lifecycle {
                     let hd = hs[h].as_mut().unwrap();
                     obs.hit("fault.reset_with_key");
                     let k = data(op.seed, (op.arg as usize).min(v.max_key));
-                    guarded(|| hd.obj.reset_with_key(&k)).map_err(|m| Violation::new("unexpected-panic", i, "reset_with_key", m, name))?;
+                    match guarded(|| hd.obj.reset_with_key(&k)) {
+                        Ok(()) => {}
+                        Err(_) if hd.refused => {
+                            obs.hit("observed.loud_failure_after_an_earlier_refusal");
+                            hs[h] = None;
+                            continue;
+                        }
+                        Err(m) => return Err(Violation::new("unexpected-panic", i, "reset_with_key", m, name)),
+                    }
                     hd.key = k;
                     hd.log.clear();
                     hd.done = None;
                     hd.resets = 0; // a re-key is a fresh keyed start
+                }
+                K_RESET_KEY_LONG => {
+                    if !matches!(v.class, Class::BlakeMac(_)) {
+                        continue;
+                    }
+                    let hd = hs[h].as_mut().unwrap();
+                    obs.hit("fault.reset_with_overlong_key");
+                    let kl = v.max_key + [1usize, 1, 2, 16, v.max_key, 191, 1000, 3][(op.arg % 8) as usize];
+                    let k = data(op.seed, kl);
+                    match guarded(|| hd.obj.reset_with_key(&k)) {
+                        Err(_) => {
+                            // refused: key, bytes fed and lifecycle state are what they were
+                            obs.hit("observed.loud_failure");
+                            hd.refused = true;
+                        }
+                        Ok(()) => {
+                            // an accepted over-long key is a statement of C20 (scenario misuse), not of this model: there is
+                            // no MAC to compare with, the handle leaves the run without a verdict
+                            obs.hit("observed.overlong_key_accepted");
+                            hs[h] = None;
+                        }
+                    }
                 }
                 K_RESET_PLAIN => {
                     if !matches!(v.class, Class::BlakeMac(_)) {
@@ -400,7 +450,15 @@ impl Scenario for Lifecycle {
                     }
                     let hd = hs[h].as_mut().unwrap();
                     obs.hit("fault.reset_to_unkeyed");
-                    guarded(|| hd.obj.reset_plain()).map_err(|m| Violation::new("unexpected-panic", i, "reset", m, name))?;
+                    match guarded(|| hd.obj.reset_plain()) {
+                        Ok(()) => {}
+                        Err(_) if hd.refused => {
+                            obs.hit("observed.loud_failure_after_an_earlier_refusal");
+                            hs[h] = None;
+                            continue;
+                        }
+                        Err(m) => return Err(Violation::new("unexpected-panic", i, "reset", m, name)),
+                    }
                     // documented: "Reset the context to the state after calling `new`" - an unkeyed object from here on
                     hd.key.clear();
                     hd.log.clear();
